@@ -146,7 +146,7 @@ func genC03(t *rapid.T) c03Case {
 // genC03Req draws the request part for a given configuration (Mode, Entries, TokenAuth).
 func genC03Req(t *rapid.T, cfg c03Case) c03Case {
 	c := c03Case{Mode: cfg.Mode, Entries: cfg.Entries, TokenAuth: cfg.TokenAuth, NoVerify: cfg.NoVerify, Kind: genKind(t)}
-	c.User = rapid.SampledFrom([]string{"", "1", "2", "4", "7", "9", "1", "al ice", "bob@example.com", "{{x}}", "1:7"}).Draw(t, "user")
+	c.User = rapid.SampledFrom([]string{"", "1", "2", "4", "7", "9", "1", "al ice", "bob@example.com", "{{x}}", "1:7", "1@corp", "7@partner.example", "2@"}).Draw(t, "user")
 	// base: one of the entries as the user sees it
 	base := rapid.SampledFrom(c.Entries).Draw(t, "base")
 	host, port := "127.0.0.1", "$P"
